@@ -92,8 +92,10 @@ def run(prop, root=None, jobs=16):
     work += [("patch", prop, pp, root) for _d, pp in refs]
     results = []
     if work:
-        with ProcessPoolExecutor(max_workers=min(jobs, len(work)), max_tasks_per_child=12) as ex:
-            results = list(ex.map(run_variant, work))
+        step = max(jobs, 1) * 8          # a fresh pool per batch, so that no worker lives long enough to grow
+        for k in range(0, len(work), step):
+            with ProcessPoolExecutor(max_workers=min(jobs, len(work))) as ex:
+                results += list(ex.map(run_variant, work[k:k + step]))
     tally = {"faults_applied": 0, "faults_detected": 0, "refactorings_applied": 0, "refactorings_silent": 0,
              "seeded_applied": 0, "seeded_detected": 0, "stale": 0, "misses": [], "samples": []}
     for v, r in zip(mine, results[:len(mine)]):
